@@ -16,12 +16,12 @@ const c11MaxNodes = 7
 
 // c11Op is one graph-building operation.
 type c11Op struct {
-	Kind string `json:"kind"`          // "link" | "unlink" | "gvacuum" (graph vacuum: every closed version is reclaimed, active ones stay)
-	Src  int    `json:"src"`           // node index
-	Dst  int    `json:"dst"`           // node index
-	Rel  string `json:"rel"`           // relation name
-	Inv  string `json:"inv,omitempty"` // inverse relation ("" = none)
-	W    int    `json:"w,omitempty"`   // link: edge weight (1 or 2); a link of an active edge with another weight makes a new version
+	Kind string `json:"kind"`           // "link" | "unlink" | "gvacuum" (graph vacuum: every closed version is reclaimed, active ones stay)
+	Src  int    `json:"src"`            // node index
+	Dst  int    `json:"dst"`            // node index
+	Rel  string `json:"rel"`            // relation name
+	Inv  string `json:"inv,omitempty"`  // inverse relation ("" = none)
+	W    int    `json:"w,omitempty"`    // link: edge weight (1 or 2); a link of an active edge with another weight makes a new version
 	Hard bool   `json:"hard,omitempty"` // unlink: physical removal (erases the history of that edge)
 }
 
